@@ -512,6 +512,30 @@ impl World {
         }
     }
 
+    /// A child signalled (`node`'s current waker was invoked) but the task was
+    /// not woken: which combinator on the path swallowed the wake-up? Walk up
+    /// while the enclosing combinator forwarded it (the waker *it* was polled
+    /// with was invoked too).
+    pub fn lost_wake_culprit(&self, node: NodeId) -> Option<NodeId> {
+        let mut cur = node;
+        loop {
+            let p = self.nodes[cur].parent?;
+            if Some(p) == self.top {
+                return Some(p);
+            }
+            let forwarded = self.nodes[p]
+                .wakers
+                .last()
+                .and_then(|w| w.ext.as_ref())
+                .map(|e| e.load(Ordering::SeqCst) > 0)
+                .unwrap_or(false);
+            if !forwarded {
+                return Some(p);
+            }
+            cur = p;
+        }
+    }
+
     /// family of the combinator that owns node `id`
     pub fn owner_family(&self, id: NodeId) -> Option<Family> {
         self.nodes.get(id).and_then(|n| n.parent).and_then(|p| self.nodes[p].family())
@@ -521,7 +545,16 @@ impl World {
     /// combinator's family when the token is unknown or a harness composite)
     pub fn tok_family(&self, t: u32) -> Option<Family> {
         let by_producer = self.toks.get(t as usize).and_then(|r| r.producer).and_then(|n| self.owner_family(n));
-        by_producer.or_else(|| self.top.and_then(|t| self.nodes[t].family()))
+        by_producer.or_else(|| {
+            // unknown handle / harness composite: attributable only when the
+            // case has a single combinator
+            let combs = self.nodes.iter().filter(|n| !n.is_leaf()).count();
+            if combs == 1 {
+                self.top.and_then(|t| self.nodes[t].family())
+            } else {
+                None
+            }
+        })
     }
 
     pub fn new_node(&mut self, parent: Option<NodeId>, index: usize, kind: NodeKind) -> NodeId {
@@ -621,15 +654,18 @@ impl World {
     fn poll_discipline(&mut self, id: NodeId) {
         if !self.in_top_poll {
             let m = format!("{} polled while no poll of the top-level combinator is in progress", self.path(id));
-            self.violate(Oracle::Q, m);
+            let f = self.owner_family(id);
+            self.violate_f(Oracle::Q, f, m);
         }
         if self.nodes[id].finished_at.is_some() {
             let m = format!("{} polled again after it completed", self.path(id));
-            self.violate(Oracle::Q, m);
+            let f = self.owner_family(id);
+            self.violate_f(Oracle::Q, f, m);
         }
         if self.nodes[id].removed_at.is_some() {
             let m = format!("{} polled after it was removed from its group", self.path(id));
-            self.violate(Oracle::Q, m);
+            let f = self.owner_family(id);
+            self.violate_f(Oracle::Q, f, m);
         }
         if self.nodes[id].dropped_at.is_some() {
             let m = format!("{} polled after it was dropped", self.path(id));
@@ -645,7 +681,11 @@ impl World {
                         self.path(id),
                         self.path(p)
                     );
-                    self.violate(Oracle::Q, m);
+                    // whoever polled the finished owner (or, if the owner polls its
+                    // children on its own after finishing, the owner itself)
+                    let direct = self.nodes[id].parent == Some(p);
+                    let f = if direct { self.nodes[p].family() } else { self.owner_family(id) };
+                    self.violate_f(Oracle::Q, f, m);
                     break;
                 }
                 cur = self.nodes[p].parent;
@@ -678,7 +718,8 @@ impl World {
                                     "{} re-polled although its last answer was Pending and none of its wakers fired since",
                                     self.path(id)
                                 );
-                                self.violate(Oracle::S, m);
+                                let f = self.owner_family(id);
+                                self.violate_f(Oracle::S, f, m);
                             }
                         }
                     }
@@ -907,10 +948,8 @@ pub fn fire(target: NodeId, which: usize, twice: bool) -> FireInfo {
         let msg = panic_msg(&e);
         with(|w| {
             let p = w.path(target);
-            w.violate(
-                Oracle::WakerPanic,
-                format!("invoking a waker handed to {} panicked: {}", p, msg),
-            )
+            let f = w.owner_family(target);
+            w.violate_f(Oracle::WakerPanic, f, format!("invoking a waker handed to {} panicked: {}", p, msg))
         });
     }
     info
@@ -926,10 +965,8 @@ pub fn fire_from_thread(target: NodeId, which: usize) -> FireInfo {
     if !ok {
         with(|w| {
             let p = w.path(target);
-            w.violate(
-                Oracle::WakerPanic,
-                format!("invoking a waker handed to {} from another thread panicked", p),
-            )
+            let f = w.owner_family(target);
+            w.violate_f(Oracle::WakerPanic, f, format!("invoking a waker handed to {} from another thread panicked", p))
         });
     }
     info
